@@ -262,6 +262,85 @@ def rule_holesib(ctx, prop: str) -> RuleResult:
     return res
 
 
+def rule_bufbind(ctx, prop: str) -> RuleResult:
+    """One callee buffer argument stands for ONE caller buffer.  Every site of
+    `Unification` that records the caller buffer for a callee buffer
+    (`pvar.set_buf_solution(b)`) on first sight must have, on the "already recorded" side
+    of the same decision, a comparison of the recorded buffer with `b` that raises
+    (sibling agreement between the windowed and the non-windowed path)."""
+    ix = ctx.ix
+    res = RuleResult("BUFBIND")
+    c = ix.module(U).cls("Unification")
+    n_sites = 0
+    for f in c.methods.values():
+        for n in f.body_nodes():
+            if not (isinstance(n, ast.Call) and isinstance(n.func, ast.Attribute) and n.func.attr == "set_buf_solution" and n.args):
+                continue
+            n_sites += 1
+            res.instances += 1
+            res.analysed.append(f"{U}:{f.qualname}")
+            new = ast.unparse(n.args[0])
+            # a variable created in this very block (BufVar(...) for a callee-local Alloc /
+            # WindowStmt) has no earlier recording
+            recv = n.func.value.id if isinstance(n.func.value, ast.Name) else None
+            stmt = n
+            while not isinstance(parent(stmt), (ast.If, ast.For, ast.While, ast.FunctionDef, ast.With, ast.Try)):
+                stmt = parent(stmt)
+            blk = next((b for fld in ("body", "orelse") for b in [getattr(parent(stmt), fld, None)] if isinstance(b, list) and any(k is stmt for k in b)), [])
+            fresh = any(
+                isinstance(k, ast.Assign) and len(k.targets) == 1 and isinstance(k.targets[0], ast.Name) and k.targets[0].id == recv
+                and isinstance(k.value, ast.Call) and last_name(k.value) == "BufVar" and k.lineno < n.lineno
+                for k in blk
+            )
+            if fresh:
+                res.ob(True)
+                res.sample(f"{f.qualname}: set_buf_solution({new}) on a BufVar created in the same block (no earlier recording)")
+                continue
+            res.nontrivial += 1
+            # the decision this recording belongs to: nearest enclosing If
+            x, p = n, parent(n)
+            iff, in_body = None, None
+            while p is not None and p is not f.node:
+                if isinstance(p, ast.If):
+                    st = x
+                    iff, in_body = p, any(st is b for b in p.body)
+                    break
+                x, p = p, parent(p)
+
+            def compares_and_raises(test: ast.AST, body) -> bool:
+                if not always_raises(body):
+                    return False
+                for k in ast.walk(test):
+                    if isinstance(k, ast.Compare) and len(k.ops) == 1 and isinstance(k.ops[0], (ast.NotEq, ast.IsNot)):
+                        sides = {ast.unparse(k.left), ast.unparse(k.comparators[0])}
+                        if new in sides and any("solution_buf" in sd for sd in sides):
+                            return True
+                return False
+
+            ok = False
+            if iff is not None:
+                if in_body:
+                    # first-sight branch: the other side must compare and raise
+                    for k in iff.orelse:
+                        if isinstance(k, ast.If) and compares_and_raises(k.test, k.body):
+                            ok = True
+                else:
+                    # recording in the else of `if <recorded differs>: raise`
+                    ok = compares_and_raises(iff.test, iff.body)
+            res.ob(ok)
+            res.sample(f"{f.qualname}: set_buf_solution({new}) has a raising comparison with the recorded buffer on the other side: {ok}")
+            if not ok:
+                res.add(
+                    Finding("BUFBIND", U, n.lineno, f.qualname, f"set_buf_solution({new})",
+                            f"{f.qualname} records `{new}` for the callee buffer on first sight but never compares a later access with the recorded buffer: "
+                            f"`a[i] = b[i] * 2.0` unifies with a callee `x[i] = x[i] * 2.0` (x a window) and is replaced by dbl(b[0:8])")
+                )
+    if n_sites < 2:
+        raise AnalysisError("anchor vanished: set_buf_solution call sites in Unification")
+    res.floor = 2
+    return res
+
+
 def rule_condspec(ctx, prop: str) -> RuleResult:
     """Accepting conditions must imply their specification (propositional check over the
     syntactic atoms of the condition, by truth table — no solver).  `accept` rows: the
